@@ -102,8 +102,15 @@ def depth(g, p):
     return 1 + max([depth(g, q) for _, q in inh] or [0])
 
 
+def arity(fn):
+    """number of parameters of a generated function: fK has K mod 3 (the same rule is in Build.lean / Spec.lean)"""
+    return (int(re.sub(r"\D", "", fn) or 0) % 3) if fn.startswith("f") else 0
+
+
 def lpc_source(g, P, base, savebin=False):
     fnum = lambda f: int(re.sub(r"\D", "", f) or 0)
+    params = lambda f: ", ".join("int a%d" % i for i in range(arity(f)))
+    largs = lambda f: ", ".join(str(11 + i) for i in range(arity(f)))        # local / :: calls pass exactly the parameters
     out = (["#pragma save_binary"] if savebin else []) + ['#include "/include/vcommon.h"']
     var_done = False
     n_inh = len(P.inherits())
@@ -123,27 +130,29 @@ def lpc_source(g, P, base, savebin=False):
             var_done = True
         mods = "" if it[1] == "-" else it[1].replace("_", " ") + " "
         if it[0] == "p":
-            out.append("%sstring %s();" % (mods, it[2]))
+            out.append("%sstring %s(%s);" % (mods, it[2], params(it[2])))
         else:
             calls = []
             for c in it[3]:
                 if c[0] == "L":
-                    calls.append("%s();" % c[1:])
-                elif c[0] == "F":
-                    calls.append("evaluate((: %s :));" % c[1:])
-                elif c[0] == "G":       # the pointer is evaluated by ANOTHER object
+                    calls.append("%s(%s);" % (c[1:], largs(c[1:])))
+                elif c[0] == "F":       # three arguments whatever the function takes: surplus / missing ones are normalised
+                    calls.append("evaluate((: %s :), 21, 22, 23);" % c[1:])
+                elif c[0] == "G":       # the pointer is evaluated by ANOTHER object (with 21, 22, 23 as well)
                     calls.append('"/c07/caller"->do_eval((: %s :));' % c[1:])
                 elif c[0] == "H":       # a functional whose body makes the local call
-                    calls.append("evaluate((: %s() :));" % c[1:])
+                    calls.append("evaluate((: %s(%s) :));" % (c[1:], largs(c[1:])))
                 elif c[0] == "I":       # ... evaluated by the other object
-                    calls.append('"/c07/caller"->do_eval((: %s() :));' % c[1:])
+                    calls.append('"/c07/caller"->do_eval((: %s(%s) :));' % (c[1:], largs(c[1:])))
                 else:
                     par, fn = c[1:].split(".")
-                    calls.append("%s::%s();" % ("" if par == "*" else par, fn))
+                    calls.append("%s::%s(%s);" % ("" if par == "*" else par, fn, largs(fn)))
             code = (fnum(P.name) + 1) * 100 + fnum(it[2])
             wset = "w = %d; " % (code + 5000) if has_w else ""
-            out.append('%sstring %s() { VL("run %s:%s " + v_%s); v_%s = %d; %s%s return "%s:%s"; }'
-                       % (mods, it[2], P.name, it[2], P.name, P.name, code, wset, " ".join(calls), P.name, it[2]))
+            alog = ('VL("args" + %s); ' % " + ".join('" " + a%d' % i for i in range(arity(it[2])))) if arity(it[2]) else ""
+            out.append('%sstring %s(%s) { VL("run %s:%s " + v_%s); %sv_%s = %d; %s%s return "%s:%s"; }'
+                       % (mods, it[2], params(it[2]), P.name, it[2], P.name, alog, P.name, code, wset, " ".join(calls),
+                          P.name, it[2]))
     if not var_done:
         out.append(vdecl)
     return "\n".join(out) + "\n"
@@ -799,6 +808,13 @@ class C07(Prop):
         if savebin:
             lines.insert(0, "savebin")
         last = None
+
+        def call_args(o):
+            # 0 to 4 arguments, whatever the function takes (fK has K mod 3 parameters): too few, exact, too many
+            if o in ("rco", "hb") or rng.chance(2, 5):
+                return ""
+            return " " + ",".join(str(rng.range(1, 9) * 100 + i) for i in range(rng.range(1, 4)))
+
         def target_elem():
             k = rng.weighted([("oid", 6), ("path", 4), ("nofile", 1), ("int", 1)])
             if k == "oid":
@@ -833,11 +849,11 @@ class C07(Prop):
                 o = rng.weighted([("co", 7), ("com", 1), ("drv", 5), ("cot", 2), ("rco", 1), ("hb", 1)])
                 if o == "hb":
                     last = (last[0], "heart_beat")
-                lines.append("call %s %s %s" % (o, last[0], last[1]))
+                lines.append("call %s %s %s%s" % (o, last[0], last[1], call_args(o)))
             elif k == "again":
                 # same object and name from another origin: the cache is hit with a different kind of caller
                 o = rng.weighted([("co", 4), ("drv", 4), ("cot", 2), ("rco", 1), ("com", 1)])
-                lines.append("call %s %s %s" % (o, last[0], last[1]))
+                lines.append("call %s %s %s%s" % (o, last[0], last[1], call_args(o)))
             elif k == "cold":
                 lines.append("cold")
             else:
